@@ -187,10 +187,45 @@ class World:
             have = [n for n in ["kyc", "acc", "buy"] if rng.random() < 0.8]
             self.attrs[a] = have
         self.send(self.env_line())
-        line = "INST %s %s %s %s %s %s %s %s %s %s %s %s %s %d %d" % (
-            enc("admin"), enc("ats"), enc("base"), lst(conv), lst(quotes), lst(apprs), lst(execs),
-            opt(afr), opt(afa), opt(bfr), opt(bfa), lst(aat), lst(bat), p, inc)
-        b = self.send(line)
+        if rng.random() < 0.06:
+            conv = conv + ["base"]
+
+        def inst_line(f):
+            return "INST %s %s %s %s %s %s %s %s %s %s %s %s %s %d %d" % (
+                enc("admin"), enc(f["name"]), enc(f["base"]), lst(f["conv"]), lst(f["quotes"]), lst(f["apprs"]),
+                lst(f["execs"]), opt(f["afr"]), opt(f["afa"]), opt(f["bfr"]), opt(f["bfa"]), lst(aat), lst(bat),
+                f["p"], f["inc"])
+        good = dict(name="ats", base="base", conv=conv, quotes=quotes, apprs=apprs, execs=execs, afr=afr, afa=afa,
+                    bfr=bfr, bfa=bfa, p=p, inc=inc)
+        # instantiate messages one step away from coherent (each refused or accepted on its own merits)
+        for _ in range(rng.choice([0, 0, 1, 2, 3])):
+            f = dict(good)
+            m = rng.randint(0, 9)
+            if m == 0:
+                f["inc"] = max(0, inc + rng.choice([-1, 1, 10 ** p // 2, -inc]))
+            elif m == 1:
+                f["p"] = rng.choice([17, 18, 19, 20, 30]); f["inc"] = 10 ** min(f["p"], 30) * rng.choice([1, 3])
+            elif m == 2:
+                f["inc"] = 10 ** p * rng.randint(1, 9) + 10 ** p // rng.choice([2, 5, 10]) if p else inc
+            elif m == 3:
+                f[rng.choice(["name", "base"])] = ""
+            elif m == 4:
+                f[rng.choice(["quotes", "execs", "apprs", "conv"])] = []
+            elif m == 5:
+                k = rng.choice(["a", "b"])
+                f[k + "fr"], f[k + "fa"] = rng.choice([("0.1", None), (None, "alice"), ("", "alice"), ("0.1", ""),
+                                                       ("abc", "alice"), ("0.1", "X"), ("0.1", "ab"), ("", ""),
+                                                       ("1e2", "alice"), (".5", "alice"), ("0.1", "Alice")])
+            elif m == 6:
+                f["execs"] = rng.choice([["X"], ["ab"], ["alice", "Bob"], ["a" * 91], ["a" * 90]])
+            elif m == 7:
+                f["apprs"] = rng.choice([["X"], ["ab"], ["carol", "CAROL"]])
+            elif m == 8:
+                f["p"] = rng.randint(0, 19); f["inc"] = 10 ** rng.randint(0, 19) * rng.choice([1, 2, 5])
+            else:
+                f["inc"] = 10 ** p * rng.choice([1, 7]) + rng.choice([0, 1])
+            self.send(inst_line(f))
+        b = self.send(inst_line(good))
         return b.ok
 
     # ------------------------------------------------------------------ request builders (valid by intent)
@@ -205,7 +240,8 @@ class World:
         c, rng = self.cfg, self.rng
         base = rng.choice([c.base] * 3 + c.conv) if c.conv else c.base
         size = c.increment * self.lots()
-        return dict(kind="create_ask", sender=rng.choice(self.accounts), id=new_uuid(rng), base=base,
+        nid = rng.choice(list(self.bids)) if self.bids and rng.random() < 0.06 else new_uuid(rng)
+        return dict(kind="create_ask", sender=rng.choice(self.accounts), id=nid, base=base,
                     quote=rng.choice(c.quotes), price=price_str(self.units(), c.precision, rng), size=size,
                     funds=[] if self.restricted(base) else [(size, base)])
 
@@ -223,7 +259,8 @@ class World:
                 if f > 0 or rng.random() < 0.2:
                     fee = (f, quote)
         due = total + (fee[0] if fee else 0)
-        return dict(kind="create_bid", sender=rng.choice(self.accounts), id=new_uuid(rng), base=c.base,
+        nid = rng.choice(list(self.asks)) if self.asks and rng.random() < 0.06 else new_uuid(rng)
+        return dict(kind="create_bid", sender=rng.choice(self.accounts), id=nid, base=c.base,
                     fee=fee, price=price_str(u, c.precision, rng), quote=quote, quote_size=total, size=size,
                     funds=[] if self.restricted(quote) else [(due, quote)])
 
@@ -569,13 +606,13 @@ def migration_history(w, hn):
 
         def pair():
             r = rng.random()
-            if r < 0.6:
+            if r < 0.5:
                 return None, None
             if r < 0.7:
                 return "", ""
             if r < 0.9:
-                return rng.choice(["0.1", "0.02", "0.5"]), rng.choice(w.accounts)
-            return rng.choice([(None, "alice"), ("0.1", None), ("abc", "alice"), ("0.1", "X")])
+                return rng.choice(["0.1", "0.02", "0.5", "0.030", "0.10", "+0.5", "00.5", "1.0", "5e-1"]), rng.choice(w.accounts)
+            return rng.choice([(None, "alice"), ("0.1", None), ("abc", "alice"), ("0.1", "X"), ("", "alice"), ("0.1", "")])
         afr, afa = pair()
         bfr, bfa = pair()
         aat = maybe(lambda: rng.choice([[], ["kyc"]]), 0.2)
